@@ -13,7 +13,8 @@ for s in $(seq 0 $((S-1))); do
     git -C /repo worktree add --detach $WT HEAD >/dev/null 2>&1
     for k in $(seq $s $S $((${#ids[@]}-1))); do
       id=${ids[$k]}; P=${id%%_*}
-      out=$(VERIF_JOBS=$J tools/run_seed_wt.sh /verif/seeded/$id/patch.diff $P $WT 2>&1)
+      only=$(python3 -c "import json;print(json.load(open('/verif/seeded/$id/meta.json')).get('regression_only',''))")
+      out=$(ONLY="$only" VERIF_JOBS=$J tools/run_seed_wt.sh /verif/seeded/$id/patch.diff $P $WT 2>&1)
       ex=$(echo "$out" | grep -o 'exit=[0-9]*' | tail -1)
       echo "$id $ex $(echo "$out" | grep -E '^\[' | head -1 | cut -c1-120)" >> /tmp/seedres_$s.txt
     done
